@@ -182,17 +182,9 @@ def run_case(case, ctx):
       o = ref.density_fs(a, b)
       toks = slots[(a, b)]
       where = "density at %s from %s (declared %s->%s: %s) route=%s target=%s" % (a, b, a, b, "yes" if (a, b) in decl else "no, expect zero", route, model["target"])
-      if isinstance(toks[0], str):
-        eamref.check_series(ctx, "slot", toks, o, dr, ridx, where)
-      else:
-        for i in ridx:
-          x = R.F(dr * i)
-          v = toks[i]
-          refv = o.value(x)
-          ok, diff, tol = R.close(float(v), refv, sc=o.vscale(x) if i else abs(refv), mag=o.mag(x))
-          ctx.count("values_compared")
-          if not ok:
-            ctx.violation("slot", "cell %r vs %s at %s i=%d" % (v, mp.nstr(refv, 15), where, i), what="slot")
+      if not isinstance(toks[0], str):
+        toks = [repr(float(v)) for v in toks]   # xlsx cells are doubles: compare like fully printed tokens
+      eamref.check_series(ctx, "slot", toks, o, dr, ridx, where)
       ctx.count("slots_checked")
       if a != b and decl.get((a, b)) != decl.get((b, a)):
         asym = True
